@@ -236,47 +236,69 @@ def zero_chunk_size(ctx, kd):
 
 # --------------------------------------------------------------------------- binding self-test
 def selftest(ctx, trace, kd):
-    """Corrupt one logged field / drop one event: the monitor must flag exactly that."""
-    lines = lib.read_lines(trace)[:3000]
+    """Corrupt one logged field in each of three runs and drop one call of a fourth: the monitor must flag exactly
+    those events.  Works on the runs that contain the events (a heavily violating tree must not break it)."""
+    with open(trace) as f:
+        lines = [x.rstrip("\n") for _, x in zip(range(6000), f)]
     cfg = t_cfg(ctx, kd, "t_selftest.cfg")
-
-    def write(name, ls):
-        p = ctx.path(name)
-        open(p, "w").write("\n".join(ls) + "\n")
-        return p
 
     def is_good_build(l):
         if '"op":"build"' not in l or '"bytes"' not in l:
             return False
         e = json.loads(l)
         return (e.get("parse") == "ok" and e["dec"].get("ok") and e["dec"]["len"] >= 2 and len(e["ranges"]) >= 2
-                and e["dec"].get("b") == e["content"].get("b"))
-    base = lib.tlc_trace(ctx, MODULE_T, cfg, write("selftest_0.ndjson", lines))
-    clean = [i for i, l in enumerate(lines) if is_good_build(l) and (i + 1) not in base["violations"]]
-    if not clean:
-        raise lib.ToolError("binding self-test: no multi-chunk build event to corrupt")
-    # (a) one byte of the decoded output
-    ia = clean[0]
-    e = json.loads(lines[ia]); e["dec"]["b"][-1] ^= 1
-    la = list(lines); la[ia] = json.dumps(e, separators=(",", ":"))
-    # (b) one byte of a checksum in the chunk table of the container
-    ib = clean[min(1, len(clean) - 1)]
-    e = json.loads(lines[ib]); e["bytes"][12 + 8 + 3] ^= 0x10
-    lb = list(lines); lb[ib] = json.dumps(e, separators=(",", ":"))
-    # (c) one decompressed size in the chunk table (+2: not a value any listed deviation produces... it may be; use +7)
-    ic = clean[min(2, len(clean) - 1)]
-    e = json.loads(lines[ic]); e["bytes"][12 + 7] = (e["bytes"][12 + 7] + 7) % 128
-    lc = list(lines); lc[ic] = json.dumps(e, separators=(",", ":"))
-    # (d) drop a builder call that is not the last of its run
-    idd = next(i for i, l in enumerate(lines) if i > 20 and '"op":"add_' in l and '"res":"ok"' in l and not lib.is_new(lines[i + 1]))
-    ld = list(lines); del ld[idd]
-    with ThreadPoolExecutor(max_workers=4) as ex:
-        va, vb, vc, vd = ex.map(lambda a: lib.tlc_trace(ctx, MODULE_T, cfg, write(a[0], a[1])),
-                                [("selftest_a.ndjson", la), ("selftest_b.ndjson", lb), ("selftest_c.ndjson", lc), ("selftest_d.ndjson", ld)])
-    res = {"corrupt_decoded_byte_flagged": va["violations"] == sorted(set(base["violations"]) | {ia + 1}),
-           "corrupt_table_checksum_flagged": vb["violations"] == sorted(set(base["violations"]) | {ib + 1}),
-           "corrupt_table_dsize_flagged": vc["violations"] == sorted(set(base["violations"]) | {ic + 1}),
-           "drop_one_event_flagged": (idd + 1) in vd["violations"] and len(vd["violations"]) > len(base["violations"])}
+                and e["dec"].get("b") == e["content"].get("b") and e["bytes"][8] == 15)
+    cand = [i for i, l in enumerate(lines[:-50]) if is_good_build(l)]
+    # one candidate per run, the runs must be complete in `lines`
+    runs = []
+    for i in cand:
+        s, e = lib.run_of_line(lines, i + 1)
+        if e < len(lines) and e - s >= 3 and not any(r[0] == s for r in runs):
+            runs.append((s, e, i))
+        if len(runs) == 4:
+            break
+    if len(runs) < 4:
+        ctx.cov["binding_selftest"] = {"skipped": "fewer than 4 conforming multi-chunk build events in the first 6000 events"}
+        return
+    base, bad, marks = [], [], {}
+    for k, (s, e, i) in enumerate(runs):
+        run = lines[s:e]
+        off = len(base)
+        base += run
+        run = list(run)
+        j = i - s
+        ev = json.loads(run[j])
+        if k == 0:      # (a) one byte of the decoded output
+            ev["dec"]["b"][-1] ^= 1
+        elif k == 1:    # (b) one byte of a checksum in the chunk table of the container
+            ev["bytes"][12 + 8 + 3] ^= 0x10
+        elif k == 2:    # (c) one decompressed size in the chunk table
+            ev["bytes"][12 + 7] = (ev["bytes"][12 + 7] + 7) % 128
+        if k < 3:
+            run[j] = json.dumps(ev, separators=(",", ":"))
+            marks[k] = off + j + 1
+            bad += run
+        else:           # (d) drop the first builder call of the run
+            marks[k] = (off + 1, off + len(run))
+            bad += run[:1] + run[2:]
+
+    def write(name, ls):
+        p = ctx.path(name)
+        open(p, "w").write("\n".join(ls) + "\n")
+        return p
+    with ThreadPoolExecutor(max_workers=2) as ex:
+        v0, v1 = ex.map(lambda a: lib.tlc_trace(ctx, MODULE_T, cfg, write(a[0], a[1])), [("selftest_0.ndjson", base), ("selftest_1.ndjson", bad)])
+    if v0["violations"]:
+        ctx.cov["binding_selftest"] = {"skipped": "the runs chosen for the self-test do not conform themselves"}
+        return
+    lo, hi = marks[3]
+    # line numbers of the 4th run shift by one after the drop; the first three runs are untouched in length
+    res = {"baseline_clean": v0["violations"] == [],
+           "corrupt_decoded_byte_flagged": marks[0] in v1["violations"],
+           "corrupt_table_checksum_flagged": marks[1] in v1["violations"],
+           "corrupt_table_dsize_flagged": marks[2] in v1["violations"],
+           "drop_one_event_flagged": any(lo <= x <= hi for x in v1["violations"]),
+           "nothing_else_flagged": all(x in (marks[0], marks[1], marks[2]) or lo <= x <= hi for x in v1["violations"])}
     ctx.cov["binding_selftest"] = res
     if not all(res.values()):
         raise lib.ToolError(f"binding self-test failed: {res}")
@@ -344,6 +366,8 @@ def run(ctx):
     n0 = zero_chunk_size(ctx, kd)
     total += n0
     distinct += n0
+    if "skipped" in ctx.cov.get("binding_selftest", {"skipped": 1}) and not ctx.violations:
+        raise lib.ToolError("binding self-test could not run although nothing violates")
     never = [o for o in OP_KINDS if not ctx.cov["calls_executed"].get(o, {}).get("ok")]
     ctx.cov["actions_never_taken"] = never
     if never:
